@@ -198,3 +198,50 @@ func VH_C09_errorpaths() {
 		})
 	}
 }
+
+// VH_C09_flusher_stop: asynchronous writes are switched off by Create on a
+// live handle; the flusher goroutine notices it and stops.  That stop path
+// runs beside one foreground call (two threads under the scheduler): no
+// interleaving may leave both waiting for each other, and the handle keeps
+// answering afterwards.
+func VH_C09_flusher_stop() {
+	root := vTempDir()
+	db := Open(root)
+	LowercaseNames = false
+	s := DefaultSchema
+	s.Asynchrone(1000, 100*time.Millisecond)
+	vAssert("C09.stop.create", db.Create(&vObj{}, s) == nil)
+	a := &vObj{A: 1, S: "s", U: 1}
+	vAssert("C09.stop.pre", db.InsertOrUpdate(a) == nil && db.InsertOrUpdate(&vObj{A: 2, S: "s", U: 2}) == nil)
+	n, err := db.Count(&vObj{}) // the flusher runs from the first access on
+	vAssert("C09.stop.count", err == nil && n == 2)
+	vAssert("C09.stop.async_off", db.Create(&vObj{}, DefaultSchema) == nil)
+	op := vChoice("op", 6)
+	done := false
+	vPar(func() {
+		switch op {
+		case 0:
+			db.All(&vObj{})
+		case 1:
+			db.Search(&vObj{}, "U", ">=", uint64(0)).Len() // un-indexed: enumerates
+		case 2:
+			db.InsertOrUpdate(&vObj{A: 3, S: "s", U: 3})
+		case 3:
+			var all []*vObj
+			db.AssignAll(&vObj{}, &all)
+		case 4:
+			s2 := DefaultSchema
+			s2.Asynchrone(1000, 100*time.Millisecond)
+			db.Create(&vObj{}, s2)
+		case 5:
+			d := &vObj{}
+			d.Initialize(a.UUID())
+			db.Delete(d)
+		}
+		done = true
+	}, func() { vRunSpawned(2) })
+	vAssert("C09.stop.completed", done)
+	_, err = db.Count(&vObj{})
+	vAssert("C09.stop.still_answers", err == nil)
+	vAssert("C09.stop.close", db.Close() == nil)
+}
